@@ -253,6 +253,10 @@ func c20Random(c *core.Ctx, k *core.Case) {
 	log := make([]c20Event, 0, n)
 	var liveGuess []int64 // workload-side memory of ids it got, to aim frees at live ids
 	mode := r.Intn(3)     // 0 balanced, 1 fill-heavy, 2 churn near full
+	wbase := int64(0)
+	if rng > 1<<20 {
+		wbase = []int64{0, 3, 1 << 16, 1<<32 - 4, 1 << 32}[r.Intn(5)] % rng
+	}
 	for i := 0; i < n; i++ {
 		var o c20Op
 		x := r.Intn(10)
@@ -261,10 +265,18 @@ func c20Random(c *core.Ctx, k *core.Case) {
 		case x < allocBias:
 			o = c20Op{kind: 0}
 		case x < allocBias+1:
-			a := int64(r.Intn(int(rng) + 1))
-			b := a + int64(r.Intn(int(max+1-a)+1))
-			if b > max+1 {
-				b = max + 1
+			var a, b int64
+			if rng > 1<<20 {
+				// a wide range: everything happens in a window of a few identifiers, so that
+				// starts collide with live slots and with the scan offset
+				a = wbase + int64(r.Intn(10))
+				b = a + int64(r.Intn(6))
+			} else {
+				a = int64(r.Intn(int(rng) + 1))
+				b = a + int64(r.Intn(int(max+1-a)+1))
+				if b > max+1 {
+					b = max + 1
+				}
 			}
 			if r.Chance(1, 4) {
 				// start values far outside the range, up to the top of int64
@@ -283,7 +295,11 @@ func c20Random(c *core.Ctx, k *core.Case) {
 				o = c20Op{2, liveGuess[j], 0}
 				liveGuess = append(liveGuess[:j], liveGuess[j+1:]...)
 			} else {
-				o = c20Op{2, min - 1 + int64(r.Intn(int(rng)+2)), 0}
+				if rng > 1<<20 {
+					o = c20Op{2, min + wbase + int64(r.Intn(12)) - 1, 0}
+				} else {
+					o = c20Op{2, min - 1 + int64(r.Intn(int(rng)+2)), 0}
+				}
 			}
 		}
 		e := c20Apply(g, o, true)
@@ -439,6 +455,16 @@ func init() {
 					if i < 2 {
 						c.Sample(k.Brief())
 					}
+				}
+				// allocators whose width does not fit 32 bits (2^32 + r, 2^33 + 1, 2^40 + 3): the
+				// arithmetic on the width is where a 32-bit int shows
+				for i := 0; i < c.Pick(24, 400); i++ {
+					min := []int64{0, 0, 1, 5, 1 << 16}[c.R.Intn(5)]
+					width := []int64{1<<32 + 1, 1<<32 + 2, 1<<32 + 3, 1<<32 + 4, 1<<33 + 1, 1<<40 + 3, 1<<32 - 1, 1 << 32}[c.R.Intn(8)]
+					k := &core.Case{Oracle: "random", Target: "uePolicyContainer.IDGenerator", I: []int64{min, min + width - 1, int64(c.R.Uint64() >> 1), int64(c.R.Range(6, 60)), int64(i % 2)}}
+					c.Do(k)
+					c.NonTrivial(k.Hash())
+					c.Cover("range_width", "above 2^32")
 				}
 				// long histories: thousands of releases on one allocator
 				for i := 0; i < c.Pick(2, 20); i++ {
